@@ -12,7 +12,7 @@ def write_if_changed(path, content):
         return True
     return False
 
-TRANSLATORS = ['walkerdb']
+TRANSLATORS = ['walkerdb', 'uni2latex', 'textdb', 'stateinventory']
 
 def main(repo, outdir):
     res = {}
